@@ -84,7 +84,7 @@ fn cmd_run(args: &[String]) {
                 }
                 let vout = runner::run_case(prop, vc);
                 agg.fault_points += 1;
-                agg.add(1_000_000_000 + i * 4096 + j as u64, rs, vc, &vout);
+                agg.add(1_000_000_000 + i * 1_000_000 + j as u64, rs, vc, &vout);
                 agg.note_violation(i, rs, vc, &vout);
             }
         }
